@@ -330,3 +330,14 @@ func TestC12(t *testing.T) {
 		Col.Case(p.Hash(), p.Compact, nt, c.Labels, excluded)
 	})
 }
+
+func TestC18(t *testing.T) {
+	spec := &GenSpec{Prop: "C18", Backings: []string{"store"}, Children: exclChildren("C18"), Merge: true}
+	applyExclusions(spec)
+	Col.SetProp("C18", "a writer history (batches, persistence rounds, compactions; KeepFiles on/off; drained or early close) produces a directory, which is then tampered with (0-2 of: empty / garbage / header-only newer data file, truncated copy of the newest file as a newer file, newest file torn by 1..5000 bytes, unrelated file, old-numbered junk); the directory is opened ReadOnly with generated StoreOptions through a recording File wrapper and a generated program runs against it: collection and store snapshot reads, batches (fewer than MaxPreMergerBatches), asynchronous notifications, Store.Persist with every CompactionConcern, SnapshotPrevious walks, closes. Checked after the open and after every step: the directory listing (names, sizes, modes, SHA-256) is unchanged, the wrapper saw no create/truncate/write/sync; the content served equals what a normal open of a copy of the directory serves (plus the batches executed against the read-only collection); a ReadOnly open succeeds exactly when the normal open does. Non-trivial: >= 2 data files or an incomplete newest file in the directory, and >= 1 batch executed against the read-only collection. Distinct = distinct program hash.")
+	rapid.Check(t, func(rt *rapid.T) {
+		p := genC18(rt, spec)
+		r := RunC18(rt, p)
+		Col.Case(p.Hash(), func() string { return p.Compact() + " extra=" + clip(string(p.Extra), 400) }, r.nontrivial, r.labels, 0)
+	})
+}
